@@ -419,6 +419,21 @@ func c11Worker(tier Tier) int {
 					sweepOnly = append(sweepOnly, CatEntry{Name: c.Name + "[not-payable]", Func: c.Func, W: wn, Act: plain, Light: true})
 				}
 			}
+			// the system account stores the pause flag under the key an account's holding has: a
+			// freeze / un-freeze / wipe addressed to it finds bytes that are not a token entry
+			{
+				paused := &uni.Builder{Env: envs[0], W: catalogueBase(envs[0])}
+				paused.Must(uni.PauseCall(1, vmcommon.BuiltInFunctionESDTPause, uni.F))
+				released := &uni.Builder{Env: envs[0], W: paused.W}
+				released.Must(uni.PauseCall(1, vmcommon.BuiltInFunctionESDTUnPause, uni.F))
+				if paused.Failed == "" && released.Failed == "" {
+					for _, fn := range []string{vmcommon.BuiltInFunctionESDTFreeze, vmcommon.BuiltInFunctionESDTUnFreeze, vmcommon.BuiltInFunctionESDTWipe} {
+						onSys := world.Action{Kind: world.ActCall, Caller: uni.ESDT, Recipient: uni.Sys, Func: fn, Args: [][]byte{uni.F}, Gas: uni.Gas, Shard: 1}
+						add(fn+"/system-account-while-paused", paused.W, onSys)
+						add(fn+"/system-account-after-unpause", released.W, onSys)
+					}
+				}
+			}
 			add("ESDTNFTCreateRoleTransfer/to-the-holder-itself", dup.W, uni.SysCall(uni.B0, vmcommon.BuiltInFunctionESDTNFTCreateRoleTransfer, uni.S, uni.B0))
 			for _, to := range [][]byte{uni.B0, uni.C1, uni.S0, uni.S1c} {
 				for _, n := range []int{1, 2, 3, 4, 5, 6, 8, 11, 16, 21, 32} {
